@@ -10,7 +10,11 @@
 //     (labelled sub-domain: identical duplicates), random key order, optional reopen with NewTrie(root, L);
 //   - stores: mutex-protected map, in-memory pebble written directly, in-memory pebble through batchdb + Write per batch;
 //   - key families: uniform, derived from an existing key by keeping c leading bits (c around the 8-bit subtree
-//     boundaries 8/16/24, last-bit siblings), so that keys collide deep and cross subtrees.
+//     boundaries 8/16/24, last-bit siblings), so that keys collide deep and cross subtrees;
+//   - dense families (TestDense): all 256 values of one key byte under a common prefix (completely expanded 8-bit
+//     subtrees = the largest encoded subtree the store holds, and its neighbours with 253-255 nodes), at the top, at
+//     lower levels, at the last key byte, nested 2-3 levels deep; large undirected maps (1500+ keys, 38-byte
+//     module-store shape, hundreds of events) where the top/store subtree fills up by size alone.
 package c10
 
 import (
@@ -2086,12 +2090,12 @@ func (p *densePlan) history(t *rapid.T) (*history, int) {
 
 // subtreeInfo: one stored subtree of the (expected) layout of a key set.
 type subtreeInfo struct {
-	Level                 int
-	Prefix                []byte
-	Nodes                 int
+	Level                  int
+	Prefix                 []byte
+	Nodes                  int
 	Leaves, Stubs, Empties int
-	FullAbove             int // number of complete (256-node) subtrees among its ancestors
-	keys                  [][]byte
+	FullAbove              int // number of complete (256-node) subtrees among its ancestors
+	keys                   [][]byte
 }
 
 // census lists the subtrees of the layout for the sorted keys (labels and generator self-check only).
